@@ -57,6 +57,23 @@ CLAIMS.update({
         note="one concrete value per abstract class; lenient kind spellings and empty sequences are don't-cares; collector always acks; trusts the harness collector/decoder and prost-generated types"),
 })
 
+_FILE_TECH = "TLA+ specs FileWorker.tla (level B: Worker::on_batch call by call over an abstract crash/fault filesystem) and FileSetBase/FileSetTrace.tla (level A) checked by TLC; every call-ending / crashing transition replayed on the real Worker through the cfg hook over an in-memory fault-injecting filesystem; divergent and random-history traces validated by TLC at level A"
+_FILE_NOTE = "filesystem model: a write appends whole, one byte or nothing; sync_all makes content durable, sync_parent directory entries; a crash keeps any prefix of unsynced writes and may drop a file whose entry was never synced; batcher modelled as the environment feeding the remainder back; FileSet::emit and StdFilesystem are outside the hook; bounds per cfg header; trusts TLC and the harness projection (bytes to tokens)"
+CLAIMS.update({
+    "C10": dict(cat="model_checking", ref="6/C10", technique=_FILE_TECH, note=_FILE_NOTE,
+        text="TLC checks Durable (in every state, including after a crash at every call boundary), RecordsWellFormed, RetryIsWhole, AckOnlyAfterSync and NoGarbage on the worker design for every fault (error / short write) at every filesystem call, crashes losing any torn suffix of unsynced data, restarts with and without reuse and clock steps within the bounds; every transition that ends a call or crashes is replayed on the real Worker under three lexical configurations and compared call by call, result/remainder and final directory as tokens; runs that differ from level B and seeded random long histories are decided by TLC at level A (a clause of the property in the verdict is a VIOLATION, anything else MODEL-DRIFT)."),
+    "C11": dict(cat="model_checking", ref="6/C11", technique=_FILE_TECH, note=_FILE_NOTE + "; names matched against the exact zero-padded text; Retained asserted for batches that created a file without list/remove fault",
+        text="Same binding as C10 for the clauses OneFilePerBatch, RollOnlyWhen, MustRoll, NameIs, NewestFirst, Retained, OldestFirst, NoPanic (max_files >= 1) and OwnSetOnly: TLC enumerates max_files x size limit x reuse, clock same/later/next/back, overflow-truncated batches, random-id orders, restarts and faults; the harness adds roll-by day/hour/minute, dotted prefixes and sibling sets (app2.*, app.other.*, ap.*, junk) in the directory."),
+    "C15": dict(cat="exploration", ref="6/C15, 7",
+        technique="TLA+ spec Text.tla: grammar acceptors with value functions over character classes; TLC checks the transcribed is_valid_path and level parse automata against the grammar for all short strings and enumerates cases (exhaustive short strings, near-misses of well-formed texts, boundary values) with predicted verdicts replayed on every parser entry point; oracle-free round-trip sweeps",
+        text="TLC shows the transcriptions of is_valid_path and the lenient level parser decide exactly their grammar for every string up to 7 / 5 characters over the class alphabets, and enumerates texts (all short strings over 17 character classes, every single replace/insert/delete/transpose/truncate of 38 well-formed texts) each with a verdict per acceptor (RFC3339 timestamp with an independent civil calendar, trace/span id, flags, traceparent, level, kind, path: accept with value / reject / don't-care); every entry point (FromStr, try_from_str, Timestamp::parse, try_from_hex(_slice), Value casts from borrowed/owned/Display text, Props::pull) is called under catch_unwind and compared; formatted texts are predicted by the spec for month boundaries 1970-9999 x precisions, all 256 flag bytes, traceparents, levels, kinds. Exploration level: all-strings is covered exhaustively only for short strings and edit neighbourhoods; the every-day / random sweeps are self-consistency without a spec oracle.",
+        note="one representative per character class; don't-cares: well-shaped timestamps with out-of-range fields, t/z/space RFC3339 variants, upper-case hex in traceparents; sweeps check self-consistency and absence of panics only"),
+    "C16": dict(cat="model_checking", ref="6/C16",
+        technique="TLA+ spec Template.tla: the byte-cursor algorithm of Template::eq as a state machine checked by TLC to refine Norm(a)=Norm(b) for all template pairs in the bounded domain (pairs as initial states); TLC-printed templates and generated macro call sites replayed on the real Template",
+        text="For every ordered pair of templates over 1/2/4-byte characters (up to 3-4 parts) TLC shows the transcription of the repaired PartialEq terminates without panic with exactly Norm(a)=Norm(b), is an equivalence, and that rendering does not depend on how text is split; the transcriptions of the unrepaired code must violate the invariant on every run; the real Template through every constructor is compared with == for every ordered pair under catch_unwind against the spec's normal forms and rendered to Display, Formatter, String and recording writers against the spec's Render for property sets with duplicates, absent and empty labels and formatters; 716 TLC-enumerated macro literals (escaped braces, adjacent holes, expression holes, fmt flags, key renames) are compiled as tpl!/evt!/emit! call sites and compared.",
+        note="a/e-acute/emoji stand for the 1/2/4-byte UTF-8 classes; formatters are outside equality; cfg'd holes and the span-name literal not covered; macro token syntax lives in the generator (lib/checks/c16.py)"),
+})
+
 NOT_YET = {}
 
 
